@@ -186,6 +186,10 @@ def run(cx):
     # the one rate value that never passes the ceiling clamp is the initial one
     from props.C14 import inst_recv_set
     inst_recv_set(cx, "C13.g")
+    # the ceiling is min(own max_send_rate, the peer's advertised max_receive_rate): the value stored at SYN time
+    # is the rate field, not another limit
+    from props.C07 import inst_config_mirror
+    inst_config_mirror(cx, "C13.h")
 
 
 def ceiling_clamp(cx, iid):
